@@ -396,6 +396,9 @@ v("C01", "nmap-deref", "break", SWM,
             return''',
   '''            self.software.get("nmap").receive(payload=payload, session_id=session_id)
             return''', "R1.7", "the original defect")
+v("C01", "raise-in-handler-closure", "break", BASE,
+  "    def reveal_to_red(self) -> bool:\n        \"\"\"\n        Reveals the node and all the items within it to the red agent.",
+  "    def reveal_to_red(self) -> bool:\n        \"\"\"\n        Reveals the node and all the items within it to the red agent.\n        \"\"\"\n        if self.red_scan_countdown > 0:\n            raise RuntimeError(\"scan already running\")\n        \"\"\"", "R1.8", "a second 'scan' request while one is running raises out of step")
 v("C01", "benign-truncated-direct", "benign", GAME,
   '''        if current_step >= max_steps:
             return True
